@@ -167,8 +167,13 @@ Lemma valid_date_count d : valid_date d = true -> rune_count d = 6%nat.
 Proof.
   unfold valid_date.
   destruct d as [|y1 [|y2 [|m1 [|m2 [|d1 [|d2 [|x d]]]]]]]; intros H; try discriminate H.
-  apply andb_prop in H as [H _].
-  rewrite rune_count_ascii; [reflexivity|]. apply digitsb_ascii. exact H.
+  apply andb_prop in H as [H _]. apply andb_prop in H as [Hy Hr].
+  rewrite rune_count_ascii; [reflexivity|]. unfold asciib. cbn [forallb].
+  apply digitsb_ascii in Hr. cbn [forallb] in Hr. rewrite Hr, andb_true_r.
+  apply N.ltb_lt. apply orb_prop in Hy as [Hy|Hy]; [apply orb_prop in Hy as [Hy|Hy]|].
+  - unfold is_digit in Hy. apply andb_prop in Hy as [_ Hy]. apply N.leb_le in Hy. lia.
+  - apply N.eqb_eq in Hy. lia.
+  - apply N.eqb_eq in Hy. lia.
 Qed.
 
 Lemma valid_time_count d : valid_time d = true -> rune_count d = 4%nat.
